@@ -459,8 +459,20 @@ func Main(args []string) int {
 	return 0
 }
 
+func gatherErrText(before int) string {
+	if vmetrics.Errors == before {
+		return ""
+	}
+	t := vmetrics.LastError
+	if len(t) > 400 {
+		t = t[:400]
+	}
+	return t
+}
+
 func runAgent(o *fnutil.Out, cf, root string, nOut int, hists [][]string, rnd *rand.Rand) {
 	started := time.Now()
+	gatherErrors0 := vmetrics.Errors
 	col := &collector{out: map[string][]outRec{}, started: started}
 	// allocator events
 	var amu sync.Mutex
@@ -714,7 +726,7 @@ func runAgent(o *fnutil.Out, cf, root string, nOut int, hists [][]string, rnd *r
 	if len(badLabels) > 5 {
 		badLabels = badLabels[:5]
 	}
-	o.Emit(map[string]any{"ev": "Run", "outputs": nOut, "records": n, "allAccounted": okAll, "decodeErrors": len(col.errs), "badLabels": badLabels, "windows": gates.Load(), "windowsHit": gateHits.Load()})
+	o.Emit(map[string]any{"ev": "Run", "outputs": nOut, "records": n, "allAccounted": okAll, "decodeErrors": len(col.errs), "badLabels": badLabels, "gatherErrors": vmetrics.Errors - gatherErrors0, "gatherError": gatherErrText(gatherErrors0), "windows": gates.Load(), "windowsHit": gateHits.Load()})
 	amu.Lock()
 	reused := 0
 	for _, e := range aevs {
